@@ -484,6 +484,30 @@ def lower (s : Stmt) : List Instr :=
 
 def lowerProgram (p : List Stmt) : List Instr := p.flatMap lower
 
+/-! ## A PRINT statement abandoned by a trapped run-time error
+
+When the evaluation of item number `k` of a PRINT list raises a run-time error under an active trap (ON ERROR RESUME
+NEXT, or a handler ending in RESUME NEXT / RESUME), the statement's header instructions and the instructions of its
+first `k` items have been executed and `PrintEnd` never is: the run continues at a statement address (the next
+statement, the handler's statements, or the same statement from its start).  For the `PrintState` that is all there
+is to it; where the run continues is C05's subject, the harness lays the history out statement by statement. -/
+
+/-- The print instructions an abandoned statement executes: header, then the first `k` items; no `PrintEnd`. -/
+def lowerAbandoned (s : Stmt) (k : Nat) : List Instr :=
+  lowerTarget s.target ++ [.setFormatStringFromA (s.format.getD (.int 0))] ++ (s.args.take k).map lowerArg
+
+/-- A statement of a history under an error trap: run to its end, or abandoned in front of item `k`. -/
+inductive TStmt where
+  | whole (s : Stmt)
+  | abandoned (s : Stmt) (k : Nat)
+  deriving Repr, DecidableEq
+
+def lowerT : TStmt → List Instr
+  | .whole s => lower s
+  | .abandoned s k => lowerAbandoned s k
+
+def lowerProgramT (p : List TStmt) : List Instr := p.flatMap lowerT
+
 /-! ## PRINT lists that call a FUNCTION which itself prints: `main.rs` `PushRet` / `PopRet`
 
 While the items of a PRINT statement are evaluated, a user FUNCTION may run, and its body may execute complete PRINT
